@@ -16,14 +16,16 @@ import (
 // reference ledger (one per backend, driven by that backend's own answers)
 
 type mAtt struct {
-	id   uint64
-	amt  int64
-	kind string
-	res  int
+	id    uint64
+	amt   int64
+	kind  string
+	total int64 // total of the MPP / blinded record
+	res   int
 }
 
 type mPay struct {
 	exists bool
+	value  int64  // amount of the payment (of its latest initiation)
 	atts   []mAtt // sorted by id
 	reason int    // -1 none
 }
@@ -79,19 +81,19 @@ func (p *mPay) sent() int64 {
 	return s
 }
 
-func kindString(k string) string {
+func kindString(k string, total int64) string {
 	ki := kinds[k]
 	switch {
 	case ki.blinded && ki.mpp:
-		return fmt.Sprintf("blinded(%d)+mpp", ki.total)
+		return fmt.Sprintf("blinded(%d)+mpp", total)
 	case ki.blinded:
-		return fmt.Sprintf("blinded(%d)", ki.total)
+		return fmt.Sprintf("blinded(%d)", total)
 	case ki.mpp:
 		ad := addrA
 		if ki.addr == 'B' {
 			ad = addrB
 		}
-		return fmt.Sprintf("mpp(%d,%x)", ki.total, ad[:1])
+		return fmt.Sprintf("mpp(%d,%x)", total, ad[:1])
 	}
 	return "no-mpp"
 }
@@ -101,10 +103,10 @@ func (p *mPay) expect() pproj {
 	if !p.exists {
 		return pproj{}
 	}
-	out := pproj{Exists: true, Value: payValue, Reason: p.reason, HashOK: true}
+	out := pproj{Exists: true, Value: p.value, Reason: p.reason, HashOK: true}
 	var sent, fees int64
 	for _, a := range p.atts {
-		out.HTLCs = append(out.HTLCs, aproj{ID: a.id, Amt: a.amt, Total: a.amt + 7, Kind: kindString(a.kind), Res: a.res})
+		out.HTLCs = append(out.HTLCs, aproj{ID: a.id, Amt: a.amt, Total: a.amt + 7, Kind: kindString(a.kind, a.total), Res: a.res})
 		if a.res == resInFlight {
 			out.NInFl++
 		}
@@ -117,7 +119,7 @@ func (p *mPay) expect() pproj {
 		}
 	}
 	out.Status = p.status()
-	out.Remain = payValue - sent
+	out.Remain = p.value - sent
 	out.Fees = fees
 	out.PFailed = p.reason >= 0
 	return out
@@ -134,12 +136,12 @@ func regIllegal(p *mPay, o op) []string {
 	if sett {
 		why = append(why, "has-settled")
 	}
-	if p.sent()+o.amt > payValue {
+	if p.sent()+o.amt > p.value {
 		why = append(why, "overpay")
 	}
 	// documented shard consistency (verifyAttempt contract; anchors.mechanism)
 	ki := kinds[o.akind]
-	if ki.blinded && ki.total == 0 {
+	if ki.blinded && o.total == 0 {
 		why = append(why, "blinded-missing-total")
 	}
 	if ki.blinded && ki.mpp {
@@ -154,7 +156,7 @@ func regIllegal(p *mPay, o op) []string {
 		case ki.blinded != fk.blinded:
 			why = append(why, "mixed-blinded")
 		case ki.blinded:
-			if ki.total != fk.total {
+			if o.total != a.total {
 				why = append(why, "blinded-total-mismatch")
 			}
 		case ki.mpp != fk.mpp:
@@ -163,12 +165,12 @@ func regIllegal(p *mPay, o op) []string {
 			if ki.addr != fk.addr {
 				why = append(why, "mpp-addr-mismatch")
 			}
-			if ki.total != fk.total {
+			if o.total != a.total {
 				why = append(why, "mpp-total-mismatch")
 			}
 		}
 	}
-	if !ki.blinded && !ki.mpp && o.amt != payValue {
+	if !ki.blinded && !ki.mpp && o.amt != p.value {
 		why = append(why, "nonmpp-amount-mismatch")
 	}
 	// de-duplicate, keep order
@@ -224,10 +226,10 @@ func (m *model) apply(o op, ok bool) int {
 	p := &m.pay[o.h]
 	switch o.kind {
 	case "init":
-		*p = mPay{exists: true, reason: -1}
+		*p = mPay{exists: true, value: o.val, reason: -1}
 	case "reg":
 		if p.exists && p.find(o.id) < 0 {
-			p.atts = append(p.atts, mAtt{id: o.id, amt: o.amt, kind: o.akind, res: resInFlight})
+			p.atts = append(p.atts, mAtt{id: o.id, amt: o.amt, kind: o.akind, total: o.total, res: resInFlight})
 			sort.Slice(p.atts, func(a, b int) bool { return p.atts[a].id < p.atts[b].id })
 		}
 	case "settle", "failatt":
@@ -385,6 +387,9 @@ type worldOpts struct {
 	unwrapKV bool // use the raw bbolt backend (real kvdb.Batch path)
 	query    bool // also observe QueryPayments
 	nh       int  // number of payment hashes of the space (default 2)
+	sqlCfg   string // SQL query configuration (see queryCfg)
+	noMig    bool   // KV: re-instantiate with WithNoMigration(true)
+	query2   bool   // observe further QueryPayments options
 }
 
 func newWorld(o worldOpts) (*World, error) {
@@ -399,6 +404,7 @@ func newWorld(o worldOpts) (*World, error) {
 	if err != nil {
 		return nil, err
 	}
+	kv.noMig, kv.query2 = o.noMig, o.query2
 	w.be[0] = kv
 	var h *sqlHandle
 	if o.pool != nil {
@@ -410,12 +416,13 @@ func newWorld(o worldOpts) (*World, error) {
 		w.closeKV()
 		return nil, err
 	}
-	sq, err := newSQLBackend(h)
+	sq, err := newSQLBackend(h, o.sqlCfg)
 	if err != nil {
 		w.closeKV()
 		h.close()
 		return nil, err
 	}
+	sq.query2 = o.query2
 	w.be[1] = sq
 	for i := range w.be {
 		w.mdl[i] = newModel(w.nh)
@@ -508,6 +515,11 @@ func (w *World) Do(raw string) error {
 	if o.h >= w.nh {
 		return fmt.Errorf("op %q names a hash outside the space", raw)
 	}
+	if o.needsValue() {
+		// amounts relative to the payment's current amount: taken from the reference
+		// ledger (identical to what the stores report in a world that is not dead)
+		o = o.resolve(w.mdl[0].pay[o.h].exists, w.mdl[0].pay[o.h].value)
+	}
 	w.hist = append(w.hist, raw)
 	w.full = append(w.full, raw)
 	w.stepCats = nil
@@ -522,7 +534,14 @@ func (w *World) Do(raw string) error {
 	}()
 	sit := situation(o, w.mdl[0])
 	if w.logf != nil {
-		w.logf("op %-16s situation=%s", raw, sit)
+		switch o.kind {
+		case "init":
+			w.logf("op %-16s situation=%s  (amount %d)", raw, sit, o.val)
+		case "reg":
+			w.logf("op %-16s situation=%s  (attempt id %d, amount %d, record total %d)", raw, sit, o.id, o.amt, o.total)
+		default:
+			w.logf("op %-16s situation=%s", raw, sit)
+		}
 	}
 	var res [2]result
 	var post [2]obsT
@@ -577,6 +596,9 @@ func (w *World) Replay(hist []string) error {
 		}
 		if o.h >= w.nh {
 			return fmt.Errorf("op %q names a hash outside the space", raw)
+		}
+		if o.needsValue() {
+			o = o.resolve(w.mdl[0].pay[o.h].exists, w.mdl[0].pay[o.h].value)
 		}
 		w.hist = append(w.hist, raw)
 		w.full = append(w.full, raw)
@@ -707,7 +729,7 @@ func (w *World) check(i int, o op, pre obsT, r result, post obsT) {
 					for _, why := range regIllegal(p, o) {
 						switch why {
 						case "overpay":
-							v("register-admitted:overpay", fmt.Sprintf("%s admitted: settled+in-flight %d + %d > payment amount %d; before: %s", o.raw, p.sent(), o.amt, payValue, pre.pay[o.h]))
+							v("register-admitted:overpay", fmt.Sprintf("%s admitted: settled+in-flight %d + %d > payment amount %d; before: %s", o.raw, p.sent(), o.amt, p.value, pre.pay[o.h]))
 						case "has-settled":
 							v("register-admitted:after-settle", fmt.Sprintf("%s admitted although an attempt has settled; before: %s", o.raw, pre.pay[o.h]))
 						case "payment-failed":
@@ -826,6 +848,35 @@ func (w *World) check(i int, o op, pre obsT, r result, post obsT) {
 			}
 			if post.qTotal != n {
 				v("query-listing:total", fmt.Sprintf("QueryPayments TotalCount=%d, %d payments exist (after %s)", post.qTotal, n, o.raw))
+			}
+			// (7b) the same listing through other query options: complete payments
+			//      only = exactly the Succeeded ones, in listing order; one payment per
+			//      call from the end / after the first = the last / second of the
+			//      full listing
+			if post.q2 {
+				w.st.clause("query-options")
+				var succ, last, second []int
+				for _, h := range post.query {
+					if h >= 0 && post.pay[h].Exists && post.pay[h].Status == int(paymentsdb.StatusSucceeded) {
+						succ = append(succ, h)
+					}
+				}
+				if k := len(post.query); k > 0 {
+					last = []int{post.query[k-1]}
+					if k > 1 {
+						second = []int{post.query[1]}
+					}
+				}
+				switch {
+				case post.q2Err != "":
+					v("query-options-error", "QueryPayments failed after "+o.raw+":"+post.q2Err)
+				case fmt.Sprint(post.qSucc) != fmt.Sprint(succ):
+					v("query-options:complete-only", fmt.Sprintf("QueryPayments(IncludeIncomplete=false) lists %v, the Succeeded payments are %v (after %s)", post.qSucc, succ, o.raw))
+				case fmt.Sprint(post.qLast) != fmt.Sprint(last):
+					v("query-options:reversed-page", fmt.Sprintf("QueryPayments(Reversed, MaxPayments=1) lists %v, the full listing is %v (after %s)", post.qLast, post.query, o.raw))
+				case fmt.Sprint(post.qSecond) != fmt.Sprint(second):
+					v("query-options:offset-page", fmt.Sprintf("QueryPayments(IndexOffset=first, MaxPayments=1) lists %v, the full listing is %v (after %s)", post.qSecond, post.query, o.raw))
+				}
 			}
 		}
 	}
